@@ -228,7 +228,10 @@ def run_odd(rec, case):
     rec.key('odd/' + ','.join(map(str, case['odd'])))
     sim = scen.make_sim(srv, server_kwargs={
         'max_http_buffer_size': 1000, 'ping_interval': PI,
-        'ping_timeout': PT})
+        'ping_timeout': PT,
+        # (every answer is large enough for the Accept-Encoding header to be
+        # looked at)
+        'compression_threshold': 0 if odd == 'odd-accept-encoding' else 1024})
     desc = 'ODD %s %s state=%s server=%s' % (odd, method, state, srv)
 
     def V(key, msg):
@@ -281,7 +284,10 @@ def run_odd(rec, case):
         elif odd == 'huge-header':
             headers['X-Big'] = 'v' * 65536
         elif odd == 'odd-accept-encoding':
-            headers['Accept-Encoding'] = 'gzip;q=abc, ,;, deflate;q='
+            headers['Accept-Encoding'] = ['gzip;q=abc, ,;, deflate;q=',
+                                          'deflate;q, gzip;q=high',
+                                          ';q=1, gzip ; q = 0.5'][
+                (im + ist) % 3]
         elif odd == 'lowercase-method':
             if srv == 'T':
                 kw['env_override'] = {'REQUEST_METHOD': method.lower()}
